@@ -312,6 +312,9 @@ def _install_island_wrappers(parallel):
             with L["lock"]:
                 k = len(L["calls"])
                 L["calls"].append(kw.get("seed"))
+            pre = L["preplan"][k] if k < len(L.get("preplan", [])) else 0.0
+            if pre:
+                time.sleep(pre)       # changes the order in which the island constructors START their work
             orig_init_island(self, *a, **kw)
             d = L["plan"][k] if k < len(L["plan"]) else 0.0
             if d:
@@ -393,7 +396,8 @@ def _run_item(it):
         if n > 1 or it.get("parallel") is not None:
             _install_island_wrappers(it.get("parallel"))
             L = ISLAND_LOG
-            L.update(plan=[float(x) for x in it.get("delay", [])], calls=[], finished=[], archi=[])
+            L.update(plan=[float(x) for x in it.get("delay", [])], preplan=[float(x) for x in it.get("predelay", [])],
+                     calls=[], finished=[], archi=[])
         with dask.config.set(scheduler="synchronous"):
             dt = pyxel.run_mode(mode=mode, detector=det, pipeline=pipe, override_dct=override, with_inherited_coords=True)
         fp = _fp_tree(dt)
